@@ -16,6 +16,10 @@
 (*              Global.Type / Func.Type store it when nil (documented:     *)
 (*              "If Typ is nil, the first invocation of Type stores ...")  *)
 (*              -- from operand printing, which holds NO mutex             *)
+(*   scratch    package-level state of a helper of a constant / type /     *)
+(*              attribute printer (only with SharedScratch = TRUE; the     *)
+(*              code as written has none): written and read back while a   *)
+(*              global definition is printed, no mutex held                *)
 (*   mmu        holder of Module.mu (0 = free); fmu[f] holder of Func.mu   *)
 (*                                                                         *)
 (* Processes = printers of three kinds (sets of process ids):              *)
@@ -50,6 +54,10 @@
 (*        instruction caches the same start state is CachePrefilled=FALSE. *)
 (*   FillGlobalCachesUnderLock  repair candidate: AssignGlobalIDs calls    *)
 (*        Type() of every global and function while it holds Module.mu.    *)
+(*   SharedScratch  TRUE: "someone made a printing helper keep its scratch *)
+(*        table in a package-level variable": NoRace and TextEqual fail    *)
+(*        from every start state, even for printers of different modules   *)
+(*        (the cell does not belong to a module).                          *)
 (*   LockGlobals, LockLocals  TRUE as the code; FALSE = "someone removed   *)
 (*        the Lock" (sensitivity checks for Mutex / NoRace).               *)
 (*                                                                         *)
@@ -92,7 +100,7 @@ CONSTANTS ModulePrinters, FuncPrinters, BlockPrinters,   \* disjoint sets of pro
           NG, NF, NL,             \* unnamed globals; functions; unnamed locals per function
           MdCase,                 \* selects MdInit, the metadata IDs of a fresh module (a cfg cannot hold a tuple)
           WriteOnlyIfChanged, StartPrinted, CachePrefilled, LockGlobals, LockLocals,
-          GCachePrefilled, FillGlobalCachesUnderLock
+          GCachePrefilled, FillGlobalCachesUnderLock, SharedScratch
 
 Printers == ModulePrinters \cup FuncPrinters \cup BlockPrinters
 MdInit == CASE MdCase = 0 -> <<>>
@@ -123,6 +131,7 @@ variables
   lid = [h \in 1..NF |-> [x \in 1..NL |-> IF StartPrinted THEN WantL(x) ELSE 0]],
   typ = [h \in 1..NF |-> [x \in 1..NL |-> StartPrinted \/ CachePrefilled]],
   gtyp = [x \in 1..NG |-> StartPrinted \/ GCachePrefilled],
+  scratch = 0,
   mmu = 0,
   fmu = [h \in 1..NF |-> 0],
   bad = [p \in Printers |-> FALSE];      \* p read a value a lone sequential call would not read
@@ -183,6 +192,11 @@ UnlockM:
 \* ---- global definitions: g.Ident() without a lock ----------------------
 PG:
   while c <= NG do
+      if SharedScratch then
+SwG:    scratch := self;                                               \* helper fills its package-level table
+SrG:    bad[self] := bad[self] \/ scratch # self;                      \* ... reads it back
+ScG:    scratch := 0;                                                  \* ... and clears it for the next call
+      end if;
 PrG:  bad[self] := bad[self] \/ gid[c] # LoneG(self, c); c := c + 1;
   end while;
   c := 1;
@@ -230,7 +244,7 @@ PrM:  bad[self] := bad[self] \/ mid[c] # LoneM(self, c); c := c + 1;
 end process;
 end algorithm *)
 \* BEGIN TRANSLATION
-VARIABLES pc, gid, mid, lid, typ, gtyp, mmu, fmu, bad
+VARIABLES pc, gid, mid, lid, typ, gtyp, scratch, mmu, fmu, bad
 
 (* define statement *)
 InitG(x) == IF StartPrinted THEN WantG(x) ELSE 0
@@ -243,7 +257,8 @@ LoneL(p, x) == IF p \in ModulePrinters \cup FuncPrinters THEN WantL(x) ELSE Init
 
 VARIABLES c, f, last, tmp
 
-vars == << pc, gid, mid, lid, typ, gtyp, mmu, fmu, bad, c, f, last, tmp >>
+vars == << pc, gid, mid, lid, typ, gtyp, scratch, mmu, fmu, bad, c, f, last, 
+           tmp >>
 
 ProcSet == (Printers)
 
@@ -253,6 +268,7 @@ Init == (* Global variables *)
         /\ lid = [h \in 1..NF |-> [x \in 1..NL |-> IF StartPrinted THEN WantL(x) ELSE 0]]
         /\ typ = [h \in 1..NF |-> [x \in 1..NL |-> StartPrinted \/ CachePrefilled]]
         /\ gtyp = [x \in 1..NG |-> StartPrinted \/ GCachePrefilled]
+        /\ scratch = 0
         /\ mmu = 0
         /\ fmu = [h \in 1..NF |-> 0]
         /\ bad = [p \in Printers |-> FALSE]
@@ -274,7 +290,8 @@ Start(self) == /\ pc[self] = "Start"
                           /\ IF self \in FuncPrinters
                                 THEN /\ pc' = [pc EXCEPT ![self] = "LockF"]
                                 ELSE /\ pc' = [pc EXCEPT ![self] = "EmG"]
-               /\ UNCHANGED << gid, mid, lid, typ, gtyp, mmu, fmu, bad, c, tmp >>
+               /\ UNCHANGED << gid, mid, lid, typ, gtyp, scratch, mmu, fmu, 
+                               bad, c, tmp >>
 
 LockG(self) == /\ pc[self] = "LockG"
                /\ IF LockGlobals
@@ -283,21 +300,21 @@ LockG(self) == /\ pc[self] = "LockG"
                      ELSE /\ TRUE
                           /\ mmu' = mmu
                /\ pc' = [pc EXCEPT ![self] = "AG"]
-               /\ UNCHANGED << gid, mid, lid, typ, gtyp, fmu, bad, c, f, last, 
-                               tmp >>
+               /\ UNCHANGED << gid, mid, lid, typ, gtyp, scratch, fmu, bad, c, 
+                               f, last, tmp >>
 
 AG(self) == /\ pc[self] = "AG"
             /\ IF c[self] <= NG
                   THEN /\ pc' = [pc EXCEPT ![self] = "RdG"]
                   ELSE /\ pc' = [pc EXCEPT ![self] = "UnlockG"]
-            /\ UNCHANGED << gid, mid, lid, typ, gtyp, mmu, fmu, bad, c, f, 
-                            last, tmp >>
+            /\ UNCHANGED << gid, mid, lid, typ, gtyp, scratch, mmu, fmu, bad, 
+                            c, f, last, tmp >>
 
 RdG(self) == /\ pc[self] = "RdG"
              /\ tmp' = [tmp EXCEPT ![self] = gid[c[self]]]
              /\ pc' = [pc EXCEPT ![self] = "WrG"]
-             /\ UNCHANGED << gid, mid, lid, typ, gtyp, mmu, fmu, bad, c, f, 
-                             last >>
+             /\ UNCHANGED << gid, mid, lid, typ, gtyp, scratch, mmu, fmu, bad, 
+                             c, f, last >>
 
 WrG(self) == /\ pc[self] = "WrG"
              /\ IF WriteNeeded(tmp[self], WantG(c[self]))
@@ -307,14 +324,14 @@ WrG(self) == /\ pc[self] = "WrG"
              /\ IF FillGlobalCachesUnderLock
                    THEN /\ pc' = [pc EXCEPT ![self] = "FgT"]
                    ELSE /\ pc' = [pc EXCEPT ![self] = "NxG"]
-             /\ UNCHANGED << mid, lid, typ, gtyp, mmu, fmu, bad, c, f, last, 
-                             tmp >>
+             /\ UNCHANGED << mid, lid, typ, gtyp, scratch, mmu, fmu, bad, c, f, 
+                             last, tmp >>
 
 FgT(self) == /\ pc[self] = "FgT"
              /\ tmp' = [tmp EXCEPT ![self] = IF gtyp[c[self]] THEN 1 ELSE 0]
              /\ pc' = [pc EXCEPT ![self] = "FwT"]
-             /\ UNCHANGED << gid, mid, lid, typ, gtyp, mmu, fmu, bad, c, f, 
-                             last >>
+             /\ UNCHANGED << gid, mid, lid, typ, gtyp, scratch, mmu, fmu, bad, 
+                             c, f, last >>
 
 FwT(self) == /\ pc[self] = "FwT"
              /\ IF tmp[self] = 0
@@ -322,14 +339,14 @@ FwT(self) == /\ pc[self] = "FwT"
                    ELSE /\ TRUE
                         /\ gtyp' = gtyp
              /\ pc' = [pc EXCEPT ![self] = "NxG"]
-             /\ UNCHANGED << gid, mid, lid, typ, mmu, fmu, bad, c, f, last, 
-                             tmp >>
+             /\ UNCHANGED << gid, mid, lid, typ, scratch, mmu, fmu, bad, c, f, 
+                             last, tmp >>
 
 NxG(self) == /\ pc[self] = "NxG"
              /\ c' = [c EXCEPT ![self] = c[self] + 1]
              /\ pc' = [pc EXCEPT ![self] = "AG"]
-             /\ UNCHANGED << gid, mid, lid, typ, gtyp, mmu, fmu, bad, f, last, 
-                             tmp >>
+             /\ UNCHANGED << gid, mid, lid, typ, gtyp, scratch, mmu, fmu, bad, 
+                             f, last, tmp >>
 
 UnlockG(self) == /\ pc[self] = "UnlockG"
                  /\ IF LockGlobals
@@ -338,8 +355,8 @@ UnlockG(self) == /\ pc[self] = "UnlockG"
                             /\ mmu' = mmu
                  /\ c' = [c EXCEPT ![self] = 1]
                  /\ pc' = [pc EXCEPT ![self] = "LockM"]
-                 /\ UNCHANGED << gid, mid, lid, typ, gtyp, fmu, bad, f, last, 
-                                 tmp >>
+                 /\ UNCHANGED << gid, mid, lid, typ, gtyp, scratch, fmu, bad, 
+                                 f, last, tmp >>
 
 LockM(self) == /\ pc[self] = "LockM"
                /\ IF LockGlobals
@@ -348,8 +365,8 @@ LockM(self) == /\ pc[self] = "LockM"
                      ELSE /\ TRUE
                           /\ mmu' = mmu
                /\ pc' = [pc EXCEPT ![self] = "IM"]
-               /\ UNCHANGED << gid, mid, lid, typ, gtyp, fmu, bad, c, f, last, 
-                               tmp >>
+               /\ UNCHANGED << gid, mid, lid, typ, gtyp, scratch, fmu, bad, c, 
+                               f, last, tmp >>
 
 IM(self) == /\ pc[self] = "IM"
             /\ IF c[self] <= NM
@@ -357,27 +374,28 @@ IM(self) == /\ pc[self] = "IM"
                        /\ c' = c
                   ELSE /\ c' = [c EXCEPT ![self] = 1]
                        /\ pc' = [pc EXCEPT ![self] = "AM"]
-            /\ UNCHANGED << gid, mid, lid, typ, gtyp, mmu, fmu, bad, f, last, 
-                            tmp >>
+            /\ UNCHANGED << gid, mid, lid, typ, gtyp, scratch, mmu, fmu, bad, 
+                            f, last, tmp >>
 
 RdM1(self) == /\ pc[self] = "RdM1"
               /\ tmp' = [tmp EXCEPT ![self] = mid[c[self]]]
               /\ c' = [c EXCEPT ![self] = c[self] + 1]
               /\ pc' = [pc EXCEPT ![self] = "IM"]
-              /\ UNCHANGED << gid, mid, lid, typ, gtyp, mmu, fmu, bad, f, last >>
+              /\ UNCHANGED << gid, mid, lid, typ, gtyp, scratch, mmu, fmu, bad, 
+                              f, last >>
 
 AM(self) == /\ pc[self] = "AM"
             /\ IF c[self] <= NM
                   THEN /\ pc' = [pc EXCEPT ![self] = "RdM"]
                   ELSE /\ pc' = [pc EXCEPT ![self] = "UnlockM"]
-            /\ UNCHANGED << gid, mid, lid, typ, gtyp, mmu, fmu, bad, c, f, 
-                            last, tmp >>
+            /\ UNCHANGED << gid, mid, lid, typ, gtyp, scratch, mmu, fmu, bad, 
+                            c, f, last, tmp >>
 
 RdM(self) == /\ pc[self] = "RdM"
              /\ tmp' = [tmp EXCEPT ![self] = mid[c[self]]]
              /\ pc' = [pc EXCEPT ![self] = "WrM"]
-             /\ UNCHANGED << gid, mid, lid, typ, gtyp, mmu, fmu, bad, c, f, 
-                             last >>
+             /\ UNCHANGED << gid, mid, lid, typ, gtyp, scratch, mmu, fmu, bad, 
+                             c, f, last >>
 
 WrM(self) == /\ pc[self] = "WrM"
              /\ IF tmp[self] = -1
@@ -386,7 +404,8 @@ WrM(self) == /\ pc[self] = "WrM"
                         /\ mid' = mid
              /\ c' = [c EXCEPT ![self] = c[self] + 1]
              /\ pc' = [pc EXCEPT ![self] = "AM"]
-             /\ UNCHANGED << gid, lid, typ, gtyp, mmu, fmu, bad, f, last, tmp >>
+             /\ UNCHANGED << gid, lid, typ, gtyp, scratch, mmu, fmu, bad, f, 
+                             last, tmp >>
 
 UnlockM(self) == /\ pc[self] = "UnlockM"
                  /\ IF LockGlobals
@@ -395,23 +414,44 @@ UnlockM(self) == /\ pc[self] = "UnlockM"
                             /\ mmu' = mmu
                  /\ c' = [c EXCEPT ![self] = 1]
                  /\ pc' = [pc EXCEPT ![self] = "PG"]
-                 /\ UNCHANGED << gid, mid, lid, typ, gtyp, fmu, bad, f, last, 
-                                 tmp >>
+                 /\ UNCHANGED << gid, mid, lid, typ, gtyp, scratch, fmu, bad, 
+                                 f, last, tmp >>
 
 PG(self) == /\ pc[self] = "PG"
             /\ IF c[self] <= NG
-                  THEN /\ pc' = [pc EXCEPT ![self] = "PrG"]
+                  THEN /\ IF SharedScratch
+                             THEN /\ pc' = [pc EXCEPT ![self] = "SwG"]
+                             ELSE /\ pc' = [pc EXCEPT ![self] = "PrG"]
                        /\ c' = c
                   ELSE /\ c' = [c EXCEPT ![self] = 1]
                        /\ pc' = [pc EXCEPT ![self] = "LockF"]
-            /\ UNCHANGED << gid, mid, lid, typ, gtyp, mmu, fmu, bad, f, last, 
-                            tmp >>
+            /\ UNCHANGED << gid, mid, lid, typ, gtyp, scratch, mmu, fmu, bad, 
+                            f, last, tmp >>
 
 PrG(self) == /\ pc[self] = "PrG"
              /\ bad' = [bad EXCEPT ![self] = bad[self] \/ gid[c[self]] # LoneG(self, c[self])]
              /\ c' = [c EXCEPT ![self] = c[self] + 1]
              /\ pc' = [pc EXCEPT ![self] = "PG"]
-             /\ UNCHANGED << gid, mid, lid, typ, gtyp, mmu, fmu, f, last, tmp >>
+             /\ UNCHANGED << gid, mid, lid, typ, gtyp, scratch, mmu, fmu, f, 
+                             last, tmp >>
+
+SwG(self) == /\ pc[self] = "SwG"
+             /\ scratch' = self
+             /\ pc' = [pc EXCEPT ![self] = "SrG"]
+             /\ UNCHANGED << gid, mid, lid, typ, gtyp, mmu, fmu, bad, c, f, 
+                             last, tmp >>
+
+SrG(self) == /\ pc[self] = "SrG"
+             /\ bad' = [bad EXCEPT ![self] = bad[self] \/ scratch # self]
+             /\ pc' = [pc EXCEPT ![self] = "ScG"]
+             /\ UNCHANGED << gid, mid, lid, typ, gtyp, scratch, mmu, fmu, c, f, 
+                             last, tmp >>
+
+ScG(self) == /\ pc[self] = "ScG"
+             /\ scratch' = 0
+             /\ pc' = [pc EXCEPT ![self] = "PrG"]
+             /\ UNCHANGED << gid, mid, lid, typ, gtyp, mmu, fmu, bad, c, f, 
+                             last, tmp >>
 
 LockF(self) == /\ pc[self] = "LockF"
                /\ IF LockLocals
@@ -420,21 +460,21 @@ LockF(self) == /\ pc[self] = "LockF"
                      ELSE /\ TRUE
                           /\ fmu' = fmu
                /\ pc' = [pc EXCEPT ![self] = "AL"]
-               /\ UNCHANGED << gid, mid, lid, typ, gtyp, mmu, bad, c, f, last, 
-                               tmp >>
+               /\ UNCHANGED << gid, mid, lid, typ, gtyp, scratch, mmu, bad, c, 
+                               f, last, tmp >>
 
 AL(self) == /\ pc[self] = "AL"
             /\ IF c[self] <= NL
                   THEN /\ pc' = [pc EXCEPT ![self] = "RdT"]
                   ELSE /\ pc' = [pc EXCEPT ![self] = "UnlockF"]
-            /\ UNCHANGED << gid, mid, lid, typ, gtyp, mmu, fmu, bad, c, f, 
-                            last, tmp >>
+            /\ UNCHANGED << gid, mid, lid, typ, gtyp, scratch, mmu, fmu, bad, 
+                            c, f, last, tmp >>
 
 RdT(self) == /\ pc[self] = "RdT"
              /\ tmp' = [tmp EXCEPT ![self] = IF typ[f[self]][c[self]] THEN 1 ELSE 0]
              /\ pc' = [pc EXCEPT ![self] = "WrT"]
-             /\ UNCHANGED << gid, mid, lid, typ, gtyp, mmu, fmu, bad, c, f, 
-                             last >>
+             /\ UNCHANGED << gid, mid, lid, typ, gtyp, scratch, mmu, fmu, bad, 
+                             c, f, last >>
 
 WrT(self) == /\ pc[self] = "WrT"
              /\ IF tmp[self] = 0
@@ -442,14 +482,14 @@ WrT(self) == /\ pc[self] = "WrT"
                    ELSE /\ TRUE
                         /\ typ' = typ
              /\ pc' = [pc EXCEPT ![self] = "RdL"]
-             /\ UNCHANGED << gid, mid, lid, gtyp, mmu, fmu, bad, c, f, last, 
-                             tmp >>
+             /\ UNCHANGED << gid, mid, lid, gtyp, scratch, mmu, fmu, bad, c, f, 
+                             last, tmp >>
 
 RdL(self) == /\ pc[self] = "RdL"
              /\ tmp' = [tmp EXCEPT ![self] = lid[f[self]][c[self]]]
              /\ pc' = [pc EXCEPT ![self] = "WrL"]
-             /\ UNCHANGED << gid, mid, lid, typ, gtyp, mmu, fmu, bad, c, f, 
-                             last >>
+             /\ UNCHANGED << gid, mid, lid, typ, gtyp, scratch, mmu, fmu, bad, 
+                             c, f, last >>
 
 WrL(self) == /\ pc[self] = "WrL"
              /\ IF WriteNeeded(tmp[self], WantL(c[self]))
@@ -458,7 +498,8 @@ WrL(self) == /\ pc[self] = "WrL"
                         /\ lid' = lid
              /\ c' = [c EXCEPT ![self] = c[self] + 1]
              /\ pc' = [pc EXCEPT ![self] = "AL"]
-             /\ UNCHANGED << gid, mid, typ, gtyp, mmu, fmu, bad, f, last, tmp >>
+             /\ UNCHANGED << gid, mid, typ, gtyp, scratch, mmu, fmu, bad, f, 
+                             last, tmp >>
 
 UnlockF(self) == /\ pc[self] = "UnlockF"
                  /\ IF LockLocals
@@ -467,8 +508,8 @@ UnlockF(self) == /\ pc[self] = "UnlockF"
                             /\ fmu' = fmu
                  /\ c' = [c EXCEPT ![self] = 1]
                  /\ pc' = [pc EXCEPT ![self] = "EmG"]
-                 /\ UNCHANGED << gid, mid, lid, typ, gtyp, mmu, bad, f, last, 
-                                 tmp >>
+                 /\ UNCHANGED << gid, mid, lid, typ, gtyp, scratch, mmu, bad, 
+                                 f, last, tmp >>
 
 EmG(self) == /\ pc[self] = "EmG"
              /\ IF c[self] <= NG
@@ -476,14 +517,14 @@ EmG(self) == /\ pc[self] = "EmG"
                         /\ c' = c
                    ELSE /\ c' = [c EXCEPT ![self] = 1]
                         /\ pc' = [pc EXCEPT ![self] = "EmM"]
-             /\ UNCHANGED << gid, mid, lid, typ, gtyp, mmu, fmu, bad, f, last, 
-                             tmp >>
+             /\ UNCHANGED << gid, mid, lid, typ, gtyp, scratch, mmu, fmu, bad, 
+                             f, last, tmp >>
 
 PrGT(self) == /\ pc[self] = "PrGT"
               /\ tmp' = [tmp EXCEPT ![self] = IF gtyp[c[self]] THEN 1 ELSE 0]
               /\ pc' = [pc EXCEPT ![self] = "PwGT"]
-              /\ UNCHANGED << gid, mid, lid, typ, gtyp, mmu, fmu, bad, c, f, 
-                              last >>
+              /\ UNCHANGED << gid, mid, lid, typ, gtyp, scratch, mmu, fmu, bad, 
+                              c, f, last >>
 
 PwGT(self) == /\ pc[self] = "PwGT"
               /\ IF tmp[self] = 0
@@ -491,14 +532,15 @@ PwGT(self) == /\ pc[self] = "PwGT"
                     ELSE /\ TRUE
                          /\ gtyp' = gtyp
               /\ pc' = [pc EXCEPT ![self] = "PrEG"]
-              /\ UNCHANGED << gid, mid, lid, typ, mmu, fmu, bad, c, f, last, 
-                              tmp >>
+              /\ UNCHANGED << gid, mid, lid, typ, scratch, mmu, fmu, bad, c, f, 
+                              last, tmp >>
 
 PrEG(self) == /\ pc[self] = "PrEG"
               /\ bad' = [bad EXCEPT ![self] = bad[self] \/ gid[c[self]] # LoneG(self, c[self])]
               /\ c' = [c EXCEPT ![self] = c[self] + 1]
               /\ pc' = [pc EXCEPT ![self] = "EmG"]
-              /\ UNCHANGED << gid, mid, lid, typ, gtyp, mmu, fmu, f, last, tmp >>
+              /\ UNCHANGED << gid, mid, lid, typ, gtyp, scratch, mmu, fmu, f, 
+                              last, tmp >>
 
 EmM(self) == /\ pc[self] = "EmM"
              /\ IF c[self] <= NM
@@ -506,14 +548,15 @@ EmM(self) == /\ pc[self] = "EmM"
                         /\ c' = c
                    ELSE /\ c' = [c EXCEPT ![self] = 1]
                         /\ pc' = [pc EXCEPT ![self] = "EmL"]
-             /\ UNCHANGED << gid, mid, lid, typ, gtyp, mmu, fmu, bad, f, last, 
-                             tmp >>
+             /\ UNCHANGED << gid, mid, lid, typ, gtyp, scratch, mmu, fmu, bad, 
+                             f, last, tmp >>
 
 PrEM(self) == /\ pc[self] = "PrEM"
               /\ bad' = [bad EXCEPT ![self] = bad[self] \/ mid[c[self]] # LoneM(self, c[self])]
               /\ c' = [c EXCEPT ![self] = c[self] + 1]
               /\ pc' = [pc EXCEPT ![self] = "EmM"]
-              /\ UNCHANGED << gid, mid, lid, typ, gtyp, mmu, fmu, f, last, tmp >>
+              /\ UNCHANGED << gid, mid, lid, typ, gtyp, scratch, mmu, fmu, f, 
+                              last, tmp >>
 
 EmL(self) == /\ pc[self] = "EmL"
              /\ IF c[self] <= NL
@@ -521,14 +564,14 @@ EmL(self) == /\ pc[self] = "EmL"
                         /\ c' = c
                    ELSE /\ c' = [c EXCEPT ![self] = 1]
                         /\ pc' = [pc EXCEPT ![self] = "NextF"]
-             /\ UNCHANGED << gid, mid, lid, typ, gtyp, mmu, fmu, bad, f, last, 
-                             tmp >>
+             /\ UNCHANGED << gid, mid, lid, typ, gtyp, scratch, mmu, fmu, bad, 
+                             f, last, tmp >>
 
 PrT(self) == /\ pc[self] = "PrT"
              /\ tmp' = [tmp EXCEPT ![self] = IF typ[f[self]][c[self]] THEN 1 ELSE 0]
              /\ pc' = [pc EXCEPT ![self] = "PwT"]
-             /\ UNCHANGED << gid, mid, lid, typ, gtyp, mmu, fmu, bad, c, f, 
-                             last >>
+             /\ UNCHANGED << gid, mid, lid, typ, gtyp, scratch, mmu, fmu, bad, 
+                             c, f, last >>
 
 PwT(self) == /\ pc[self] = "PwT"
              /\ IF tmp[self] = 0
@@ -536,14 +579,15 @@ PwT(self) == /\ pc[self] = "PwT"
                    ELSE /\ TRUE
                         /\ typ' = typ
              /\ pc' = [pc EXCEPT ![self] = "PrL"]
-             /\ UNCHANGED << gid, mid, lid, gtyp, mmu, fmu, bad, c, f, last, 
-                             tmp >>
+             /\ UNCHANGED << gid, mid, lid, gtyp, scratch, mmu, fmu, bad, c, f, 
+                             last, tmp >>
 
 PrL(self) == /\ pc[self] = "PrL"
              /\ bad' = [bad EXCEPT ![self] = bad[self] \/ lid[f[self]][c[self]] # LoneL(self, c[self])]
              /\ c' = [c EXCEPT ![self] = c[self] + 1]
              /\ pc' = [pc EXCEPT ![self] = "EmL"]
-             /\ UNCHANGED << gid, mid, lid, typ, gtyp, mmu, fmu, f, last, tmp >>
+             /\ UNCHANGED << gid, mid, lid, typ, gtyp, scratch, mmu, fmu, f, 
+                             last, tmp >>
 
 NextF(self) == /\ pc[self] = "NextF"
                /\ IF f[self] < last[self]
@@ -551,32 +595,34 @@ NextF(self) == /\ pc[self] = "NextF"
                           /\ pc' = [pc EXCEPT ![self] = "LockF"]
                      ELSE /\ pc' = [pc EXCEPT ![self] = "PM"]
                           /\ f' = f
-               /\ UNCHANGED << gid, mid, lid, typ, gtyp, mmu, fmu, bad, c, 
-                               last, tmp >>
+               /\ UNCHANGED << gid, mid, lid, typ, gtyp, scratch, mmu, fmu, 
+                               bad, c, last, tmp >>
 
 PM(self) == /\ pc[self] = "PM"
             /\ IF self \in ModulePrinters /\ c[self] <= NM
                   THEN /\ pc' = [pc EXCEPT ![self] = "PrM"]
                   ELSE /\ pc' = [pc EXCEPT ![self] = "Done"]
-            /\ UNCHANGED << gid, mid, lid, typ, gtyp, mmu, fmu, bad, c, f, 
-                            last, tmp >>
+            /\ UNCHANGED << gid, mid, lid, typ, gtyp, scratch, mmu, fmu, bad, 
+                            c, f, last, tmp >>
 
 PrM(self) == /\ pc[self] = "PrM"
              /\ bad' = [bad EXCEPT ![self] = bad[self] \/ mid[c[self]] # LoneM(self, c[self])]
              /\ c' = [c EXCEPT ![self] = c[self] + 1]
              /\ pc' = [pc EXCEPT ![self] = "PM"]
-             /\ UNCHANGED << gid, mid, lid, typ, gtyp, mmu, fmu, f, last, tmp >>
+             /\ UNCHANGED << gid, mid, lid, typ, gtyp, scratch, mmu, fmu, f, 
+                             last, tmp >>
 
 printer(self) == Start(self) \/ LockG(self) \/ AG(self) \/ RdG(self)
                     \/ WrG(self) \/ FgT(self) \/ FwT(self) \/ NxG(self)
                     \/ UnlockG(self) \/ LockM(self) \/ IM(self)
                     \/ RdM1(self) \/ AM(self) \/ RdM(self) \/ WrM(self)
-                    \/ UnlockM(self) \/ PG(self) \/ PrG(self)
-                    \/ LockF(self) \/ AL(self) \/ RdT(self) \/ WrT(self)
-                    \/ RdL(self) \/ WrL(self) \/ UnlockF(self) \/ EmG(self)
-                    \/ PrGT(self) \/ PwGT(self) \/ PrEG(self) \/ EmM(self)
-                    \/ PrEM(self) \/ EmL(self) \/ PrT(self) \/ PwT(self)
-                    \/ PrL(self) \/ NextF(self) \/ PM(self) \/ PrM(self)
+                    \/ UnlockM(self) \/ PG(self) \/ PrG(self) \/ SwG(self)
+                    \/ SrG(self) \/ ScG(self) \/ LockF(self) \/ AL(self)
+                    \/ RdT(self) \/ WrT(self) \/ RdL(self) \/ WrL(self)
+                    \/ UnlockF(self) \/ EmG(self) \/ PrGT(self)
+                    \/ PwGT(self) \/ PrEG(self) \/ EmM(self) \/ PrEM(self)
+                    \/ EmL(self) \/ PrT(self) \/ PwT(self) \/ PrL(self)
+                    \/ NextF(self) \/ PM(self) \/ PrM(self)
 
 (* Allow infinite stuttering to prevent deadlock on termination. *)
 Terminating == /\ \A self \in ProcSet: pc[self] = "Done"
@@ -607,6 +653,9 @@ Acc(p) ==
     [] at = "RdM"  -> [cls |-> "mid", idx |-> <<cc>>, w |-> FALSE, step |-> "AssignMetadataIDs"]
     [] at = "WrM"  -> IF tmp[p] = -1
                       THEN [cls |-> "mid", idx |-> <<cc>>, w |-> TRUE, step |-> "AssignMetadataIDs"] ELSE NoAcc
+    [] at = "SwG"  -> [cls |-> "pkg", idx |-> <<>>, w |-> TRUE, step |-> "print"]
+    [] at = "SrG"  -> [cls |-> "pkg", idx |-> <<>>, w |-> FALSE, step |-> "print"]
+    [] at = "ScG"  -> [cls |-> "pkg", idx |-> <<>>, w |-> TRUE, step |-> "print"]
     [] at = "PrG"  -> [cls |-> "gid", idx |-> <<cc>>, w |-> FALSE, step |-> "print"]
     [] at = "RdT"  -> [cls |-> "typ", idx |-> <<ff, cc>>, w |-> FALSE, step |-> "AssignIDs"]
     [] at = "WrT"  -> IF tmp[p] = 0
@@ -640,6 +689,7 @@ NoRace == \A p, q \in Printers : p # q => ~Races(p, q)
 \* (no mutex guards a gtyp cell unless the repair candidate fills it in AssignGlobalIDs)
 Locks(p, cls) == IF cls \in {"gid", "mid"} THEN p \in ModulePrinters
                  ELSE IF cls = "gtyp" THEN FillGlobalCachesUnderLock /\ p \in ModulePrinters
+                 ELSE IF cls = "pkg" THEN FALSE
                  ELSE p \in ModulePrinters \cup FuncPrinters
 \* class of a race: the cell class, the step of the writer, and what the other party is
 RaceClass(p, q) ==   \* p is a writer
